@@ -321,12 +321,30 @@ def explore(harness, *, max_paths=1000, deadline=None, hints=(), range_bound=2, 
                     cl[1] += 1
                     continue
                 model = c.solver.model()
-                if len([x for x in stats.cex if x["clause"] == clause]) < keep_cex:
+                extra = getattr(harness, "extra_models", 0)
+                if len([x for x in stats.cex if x["clause"] == clause]) < keep_cex + extra:
                     try:
                         w = harness.witness(c, model, clause, c.notes.get("violation_info", {}))
                     except Exception as e:  # witness extraction must never hide a counterexample
                         w = {"error": f"witness extraction failed: {type(e).__name__}: {e}"}
                     stats.cex.append({"clause": clause, "witness": w, "info": _jsonable(c.notes.get("violation_info", {}))})
+                    # over-approximate encodings (R-mode): collect a few more, different models
+                    if extra and hasattr(harness, "block"):
+                        c.solver.push()
+                        try:
+                            c.solver.add(z3.Not(t))
+                            for _ in range(extra):
+                                blk = harness.block(c, model)
+                                if blk is None:
+                                    break
+                                c.solver.add(blk)
+                                if c.solver.check() != z3.sat:
+                                    break
+                                model = c.solver.model()
+                                w = harness.witness(c, model, clause, {})
+                                stats.cex.append({"clause": clause, "witness": w, "info": {"extra_model": True}})
+                        finally:
+                            c.solver.pop()
                 else:
                     stats.cex.append({"clause": clause, "witness": None, "info": {}})
             if on_path is not None:
